@@ -250,6 +250,7 @@ func (f *frame) exec(ins ssa.Instruction, st *State) {
 		ch := f.val(i.Chan, st)
 		f.safety(i, "send-nil-chan", st, "(not (= "+ch.S+" 0))")
 		f.safety(i, "send-closed-chan", st, not(f.chClosed(ch.S, st)))
+		f.chanElemInv(f.val(i.X, st), st.cond, st, true, i)
 	case *ssa.Call:
 		rs := f.call(i, i.Common(), st)
 		f.bindResults(i, rs)
@@ -368,8 +369,11 @@ func (f *frame) unop(i *ssa.UnOp, st *State) {
 			v := f.freshVal("recv", tup.At(0).Type(), st)
 			ok := e.fresh("recvok", "Bool")
 			f.tuples[i] = []T{v, {ok, "Bool", types.Typ[types.Bool]}}
+			f.chanElemInv(v, and(st.cond, ok), st, false, i)
 		} else {
-			f.set(i, f.freshVal("recv", i.Type(), st))
+			v := f.freshVal("recv", i.Type(), st)
+			f.set(i, v)
+			f.chanElemInv(v, st.cond, st, false, i)
 		}
 	case token.NOT:
 		f.set(i, T{not(f.val(i.X, st).S), "Bool", i.Type()})
@@ -702,7 +706,7 @@ func (f *frame) hasType(x string, t types.Type) string {
 func (f *frame) typeImplFacts(it types.Type, fn string) {
 	e := f.e
 	iface := it.Underlying().(*types.Interface)
-	for id, ct := range e.typeByID {
+	for id, ct := range e.knownTypes() {
 		key := fmt.Sprintf("implfact@%s@%d", fn, id)
 		if e.declared[key] {
 			continue
@@ -814,4 +818,29 @@ func (f *frame) eaTerm(arr, idx string) string {
 		e.addDecl("eafact@"+t, "(assert (and (not (= "+t+" 0)) (= (owner "+t+") (owner "+arr+"))))")
 	}
 	return t
+}
+
+// chanElemInv assumes (receive) or requires (send) the declared element invariant of the channel's element type.
+func (f *frame) chanElemInv(v T, cond string, st *State, send bool, at ssa.Instruction) {
+	e := f.e
+	if v.Go == nil {
+		return
+	}
+	k := types.TypeString(v.Go, nil)
+	inv := e.db.chanelem[k]
+	if inv == nil {
+		return
+	}
+	env := &specEnv{f: f, vars: map[string]T{"elem": v}, cur: st, old: st, pkg: e.db.chanelemP[k], nbound: 1}
+	t, err := env.evalBool(inv)
+	if err != nil {
+		e.note("chanelem eval: " + err.Error())
+		return
+	}
+	if send {
+		an, pos := f.anchor(at)
+		e.addOb("chanelem-send", inv.Text+"|"+an, inv.Tags, pos, cond, t)
+		return
+	}
+	e.assume(implies(cond, t))
 }
